@@ -56,6 +56,7 @@ def op_term(op):
         "hold": lambda: "OHold", "rel": lambda: f"ORelease {op[1]}", "drain": lambda: "ODrain",
         "stop": lambda: "OStop", "q": lambda: "OQuery", "sd": lambda: f"OSetDisc {disc_term(op[1])}",
         "sw": lambda: f"OSetCount {op[1]}", "xs": lambda: f"OXStop {op[1]}", "xr": lambda: f"OXRelease {op[1]}",
+        "xg": lambda: f"OXGate {op[1]}",
         "sh": lambda: "OSetHandler", "ud": lambda: "OSetHandler",
     }[k]()
 
@@ -275,15 +276,17 @@ def evaluate(tag, build, scns):
         common_args = f"{c} {s['n']} {disc_term(s['disc'])} {ops} {evs}"
         pre = f"{c} {s['n']} {disc_term(s['disc'])} {ops}"
         exprs.append(f"(scenario_events {args}, check_C13 {common_args}, check_C14 {common_args}, "
-                     f"stale_completions {ops} {evs}, check_C13 {pre} (scenario_events {args}))")
+                     f"stale_completions {ops} {evs}, check_C13 {pre} (scenario_events {args}), "
+                     f"check_C14 {pre} (scenario_events {args}))")
     vals = coq_eval(tag, IMPORTS, exprs)
     res = []
     for s, it, v in zip(scns, impl, vals):
         t = parse_term(v)
-        assert t[0] == "tuple" and len(t) == 6, v[:200]
+        assert t[0] == "tuple" and len(t) == 7, v[:200]
         # m13: check_C13 on the MODEL's own run (clauses validated on the model: applied to the implementation
         # only where the model's run is clean)
-        res.append({"impl": strip_diag(it), "model": t[1], "a13": t[2], "a14": t[3], "stale": t[4], "m13": t[5]})
+        res.append({"impl": strip_diag(it), "model": t[1], "a13": t[2], "a14": t[3], "stale": t[4], "m13": t[5],
+                    "m14": t[6]})
     return res, htbl
 
 
@@ -410,6 +413,143 @@ def gen_window_scenario(rng):
             ops.append(["g", w])
     ops.append(["q"])
     return {"router": router, "queue": rng.choice(["d", "d", "p"]), "n": n, "disc": disc, "hash": h, "rl": "", "ops": ops[:80]}
+
+
+def gen_shrink_window_scenario(rng):
+    """the exit window of a worker the FACTORY retires: the top worker(s) of the pool get a slow post_stop (`xg`),
+    a shrink stops them (at once when idle, after the running job when busy), the pool grows again to the same
+    worker ids while the retired actor still sits in its post_stop, jobs reach the new worker, and only then the
+    old actor's post_stop returns (`xr`) and its termination event reaches the factory."""
+    router = rng.choice(["kp", "kp", "rr", "cu", "sq", "q"])
+    n = rng.choice([2, 2, 3])
+    keys = rng.sample(range(0, 30), rng.choice([1, 2, 3]))
+    h = {k: rng.choice([0, 1, 2, 3, 5, 2**32 + 3]) for k in keys} if router == "cu" else {}
+    ops, jid = [], 0
+    def d(k=None):
+        nonlocal jid
+        jid += 1
+        ops.append(["d", jid, k if k is not None else rng.choice(keys), "-", rng.choice([0, 1])])
+    for _ in range(rng.choice([0, 0, 1, 2, 3])):
+        d()
+        if rng.random() < 0.4:
+            ops.append(["g", rng.randrange(0, n)])
+    m = rng.randrange(1, n)                      # new size: workers m..n-1 are retired
+    gated = [w for w in range(m, n) if rng.random() < 0.85]
+    for w in gated:
+        ops.append(["xg", w])
+    ops.append([rng.choice(["r", "r", "sw"]), m])
+    if rng.random() < 0.4:
+        for w in range(m, n):                    # a busy retired worker goes after its running job
+            if rng.random() < 0.7:
+                ops.append(["g", w])
+    if rng.random() < 0.2:
+        d()
+    ops.append([rng.choice(["r", "r", "sw"]), rng.choice([n, n, n + 1])])
+    for _ in range(rng.choice([1, 2, 3, 4])):
+        d(keys[0] if rng.random() < 0.6 else None)
+    if rng.random() < 0.3:
+        ops.append(["g", rng.randrange(0, n)])
+    if rng.random() < 0.2:
+        ops.append(["q"])
+    for w in gated:
+        if rng.random() < 0.9:
+            ops.append(["xr", w])
+    for _ in range(rng.choice([2, 4, 6])):
+        x = rng.random()
+        if x < 0.45:
+            d(keys[0] if rng.random() < 0.5 else None)
+        elif x < 0.8:
+            ops.append(["g", rng.randrange(0, n + 1)])
+        elif x < 0.87:
+            ops.append(["k", rng.randrange(0, n)])
+        else:
+            ops.append(["q"])
+    ops.append(["q"])
+    for w in gated:
+        ops.append(["xr", w])
+    for _ in range(3):
+        for w in range(n + 1):
+            ops.append(["g", w])
+    if rng.random() < 0.25:
+        ops.append([rng.choice(["stop", "drain"])])
+        for w in range(n + 1):
+            ops.append(["g", w])
+    ops.append(["q"])
+    return {"router": router, "queue": rng.choice(["d", "d", "p"]), "n": n, "disc": "none", "hash": h, "rl": "", "ops": ops[:80]}
+
+
+def gen_backlog_scenario(rng):
+    """factory-queueing routers with a real backlog: every worker busy, two or more jobs of one key (and others)
+    waiting in the factory queue -- some of them with a ttl that runs out while they wait --, completions in a
+    random order (so that with sticky routing the queue head's key is sometimes running elsewhere when a worker
+    frees up), a worker killed / stopped while busy, then further jobs and a settled-point query: whoever is
+    idle then must get the work."""
+    router = rng.choice(["sq", "sq", "sq", "q", "q"])
+    n = rng.choice([2, 2, 3])
+    rl = "" if rng.random() < 0.85 else "".join(rng.choice("1110") for _ in range(rng.choice([8, 16, 30])))
+    ops, jid, clock = [], 0, 0
+    fresh = iter(rng.sample(range(0, 60), 30))
+    def d(k, ttl="-"):
+        nonlocal jid
+        jid += 1
+        ops.append(["d", jid, k, ttl, rng.choice([0, 1])])
+    running = [next(fresh) for _ in range(n)]
+    for k in running:
+        d(k)
+    waiting = [next(fresh) for _ in range(rng.choice([1, 1, 2]))]
+    if rng.random() < 0.25:
+        waiting.append(rng.choice(running))
+    for _ in range(rng.choice([2, 2, 3, 4, 5])):
+        d(rng.choice(waiting), rng.choice([1, 2]) if rng.random() < 0.2 else "-")
+    for _ in range(rng.choice([1, 2, 3, 4, 6])):
+        x = rng.random()
+        if x < 0.62:
+            ops.append(["g", rng.randrange(0, n)])
+        elif x < 0.72:
+            ops.append([rng.choice(["k", "k", "f", "xs"]), rng.randrange(0, n)])
+            if ops[-1][0] == "xs":
+                ops.append(["xr", ops[-1][1]])
+        elif x < 0.8 and clock + 3 <= 9:
+            dt = rng.choice([1, 2, 3])
+            clock += dt
+            ops.append(["t", dt])
+        elif x < 0.9:
+            d(rng.choice(waiting + running))
+        else:
+            ops.append(["q"])
+    for _ in range(rng.choice([1, 1, 2, 3])):
+        d(next(fresh) if rng.random() < 0.7 else rng.choice(waiting))
+        if rng.random() < 0.5:
+            ops.append(["q"])
+    ops.append(["q"])
+    for _ in range(rng.choice([1, 3])):
+        order = list(range(n))
+        rng.shuffle(order)
+        for w in order:
+            ops.append(["g", w])
+        if rng.random() < 0.5:
+            d(next(fresh))
+            ops.append(["q"])
+    if rng.random() < 0.5:
+        # the backlog is gone: a worker dies by termination (kill / stop from outside) while busy and the factory
+        # queue is empty; its replacement must be a routing target again
+        for _ in range(2):
+            for w in range(n):
+                ops.append(["g", w])
+        for _ in range(rng.choice([1, n])):
+            d(next(fresh))
+        wv = rng.randrange(0, n)
+        ops.append([rng.choice(["k", "k", "xs", "f"]), wv])
+        if ops[-1][0] == "xs":
+            ops += [["g", wv], ["xr", wv]]
+        for _ in range(rng.choice([n, n + 1])):
+            d(next(fresh))
+        ops.append(["q"])
+    for _ in range(4):
+        for w in range(n):
+            ops.append(["g", w])
+    ops.append(["q"])
+    return {"router": router, "queue": rng.choice(["d", "d", "p"]), "n": n, "disc": "none", "hash": {}, "rl": rl, "ops": ops[:90]}
 
 
 def gen_long_scenario(rng):
